@@ -48,7 +48,7 @@ NoStep == [kind |-> "none", batch |-> <<>>, wr |-> <<>>, ev |-> <<>>, err |-> NO
 
 Ids == 0..(N + 1)
 BrokerPackets ==
-    {Pk(t, id, 0, 0) : t \in {"puback", "pubrec", "pubrel", "pubcomp"}, id \in Ids}
+    {Pk(t, id, f, 0) : t \in {"puback", "pubrec", "pubrel", "pubcomp"}, id \in Ids, f \in (IF Version = 5 THEN {0, 1} ELSE {0})}   \* f = 1: failure reason code
       \cup {Pk("publish", IF q = 0 THEN 0 ELSE 1, q, 0) : q \in {0, 1, 2}}     \* a QoS 0 publish carries no id
       \cup {Pk("suback", 1, 0, 0), Pk("pingresp", 0, 0, 0)}
 
@@ -176,7 +176,7 @@ Batch(s0, q, acc, k) ==
                       done |-> Append(acc.done, Head(q)),
                       acked |-> acc.acked \cup AckedMsgs(acc.s, Head(q), r),
                       relDone |-> acc.relDone \cup (IF r.err = NONE /\ Head(q).t = "pubcomp" THEN {Head(q).id} ELSE {}),
-                      relNew |-> acc.relNew \cup (IF r.err = NONE /\ Head(q).t = "pubrec" THEN {Head(q).id} ELSE {}),
+                      relNew |-> acc.relNew \cup (IF r.err = NONE /\ Head(q).t = "pubrec" /\ ~Failed(Head(q)) THEN {Head(q).id} ELSE {}),
                       ackIds |-> acc.ackIds \cup (IF r.err = NONE /\ Head(q).t \in {"puback", "pubrec"} THEN {Head(q).id} ELSE {}),
                       ooo |-> acc.ooo \/ (r.err # NONE /\ Head(q).t \in {"puback", "pubrec", "pubcomp"})
                                       \/ (r.err = NONE /\ Head(q).t = "pubrec")
